@@ -11,7 +11,7 @@ LEVEL = "model_checking"
 def run(ctx):
     ctx.build_mvh()
     rng = random.Random(ctx.seed)
-    scs = scenarios.fam_faults(rng, ctx.thorough()) + scenarios.fam_events_server(rng, 30 if ctx.thorough() else 6)
+    scs = scenarios.fam_faults(rng, ctx.thorough()) + scenarios.fam_events_server(rng, 30 if ctx.thorough() else 6) + scenarios.fam_udp(rng, 20 if ctx.thorough() else 4)
     _node.run_family(ctx, scs, ["C14.", "C10.open_event_arrives", "C10.close_event_arrives_after_failure"], family="faults",
                      timeout=120, workers=8, rule=(
         "read error on custom transports repeated 1..5 times; TCP client against a fake server that refuses, accepts-then-closes, "
